@@ -170,7 +170,7 @@ class P:
             elif self.peek()[0] == "id" and self.at("=", 1):
                 name = self.eatid()
                 self.eat("=")
-                stmts.append(("let", name, self.expr()))
+                stmts.append(("assign", name, self.expr()))
                 self.eat(";")
             else:
                 e = self.expr()
@@ -527,7 +527,7 @@ class Exec:
         if t == "method":
             return self.method(e, env, k)
         if t == "block":
-            return self.block(e[1], 0, dict(env), lambda v, env2: k(v, self.leave(env, env2)))
+            return self.block(e[1], 0, self.enter(env), lambda v, env2: k(v, self.leave(env, env2)))
         if t == "if":
             return self.ifx(e, env, k)
         if t == "match":
@@ -536,8 +536,21 @@ class Exec:
 
     @staticmethod
     def leave(outer, inner):
-        # names declared inside a block disappear, assignments to outer names persist
-        return {n: inner[n] for n in outer}
+        # names declared inside a block disappear (also when they shadow an outer name), assignments to outer names persist
+        decl = inner.get("__decl", frozenset())
+        return {n: (outer[n] if n in decl or n == "__decl" else inner[n]) for n in outer}
+
+    @staticmethod
+    def enter(env, bound=()):
+        env2 = dict(env)
+        env2["__decl"] = frozenset(bound)
+        return env2
+
+    @staticmethod
+    def declare(env, names):
+        env2 = dict(env)
+        env2["__decl"] = env.get("__decl", frozenset()) | frozenset(names)
+        return env2
 
     def field(self, v, name):
         if v in (("raw",), ("self",)) and name in ("exception_record", "raw"):
@@ -602,10 +615,18 @@ class Exec:
         st = stmts[i]
         if st[0] == "let":
             def bind(v, env2):
-                env3 = dict(env2)
+                env3 = self.declare(env2, [st[1]])
                 env3[st[1]] = v
                 return self.block(stmts, i + 1, env3, k)
             return self.ev(st[2], env, bind)
+        if st[0] == "assign":
+            def upd(v, env2):
+                if st[1] not in env2:
+                    self.die("assignment to the unknown name %s" % st[1])
+                env3 = dict(env2)
+                env3[st[1]] = v
+                return self.block(stmts, i + 1, env3, k)
+            return self.ev(st[2], env, upd)
         if st[0] == "return":
             return self.ev(st[1], env, lambda v, env2: ("leaf", v))
         if st[0] == "expr":
@@ -620,13 +641,13 @@ class Exec:
         _, cond, then, els = e
         def branches(test, bind):
             def tb(env2):
-                envt = dict(env2)
+                envt = self.enter(env2, bind)
                 envt.update(bind)
                 return self.block(then[1], 0, envt, lambda v, env3: k(v, self.leave(env2, env3)))
             def eb(env2):
                 if els is None:
                     return k(("unit",), env2)
-                return self.block(els[1], 0, dict(env2), lambda v, env3: k(v, self.leave(env2, env3)))
+                return self.block(els[1], 0, self.enter(env2), lambda v, env3: k(v, self.leave(env2, env3)))
             return tb, eb
         if cond[0] == "iflet":
             pat, ex = cond[1], cond[2]
@@ -682,7 +703,7 @@ class Exec:
         _, scrut, arms = e
         def got(v, env2):
             def body(b):
-                return self.block(b[1], 0, dict(env2), lambda val, env3: k(val, self.leave(env2, env3)))
+                return self.block(b[1], 0, self.enter(env2), lambda val, env3: k(val, self.leave(env2, env3)))
             if v in (("cpu",), ("pw",)):
                 out = []
                 for pats, guard, b in arms:
@@ -1068,7 +1089,7 @@ class ExecP(Exec):
             def bind(v, env2):
                 if v[0] != "tuple" or len(v[1]) != len(pat[1]):
                     self.die("tuple pattern against %r" % (v,))
-                env3 = dict(env2)
+                env3 = self.declare(env2, [q[1] for q in pat[1]])
                 env3.update({q[1]: w for q, w in zip(pat[1], v[1])})
                 return self.block(stmts, i + 1, env3, k)
             return self.ev(ex, env, bind)
@@ -1103,13 +1124,13 @@ class ExecP(Exec):
                 else:
                     self.die("`if let Some(..)` on %r" % (v,))
                 def tb():
-                    envt = dict(env2)
+                    envt = self.enter(env2, [var])
                     envt[var] = bound
                     return self.block(then[1], 0, envt, lambda val, env3: k(val, self.leave(env2, env3)))
                 def eb():
                     if els is None:
                         return k(("unit",), env2)
-                    return self.block(els[1], 0, dict(env2), lambda val, env3: k(val, self.leave(env2, env3)))
+                    return self.block(els[1], 0, self.enter(env2), lambda val, env3: k(val, self.leave(env2, env3)))
                 return ("matchopt", scrut, var, tb(), eb())
             return self.ev(ex, env, got)
         return Exec.ifx(self, e, env, k)
